@@ -376,6 +376,12 @@ def _span_check(O, N, part=None, parts=1, fixed=()):
     R = rep()
     m0 = O.mir
     fc = C09.classes(m0, parts)[part] if part is not None and N > 0 else None
+    if N >= 4 and fc is not None:
+        # four arbitrary tokens of which the first opens a parenthesis are three arbitrary tokens inside an expression: that
+        # exploration, with positions tracked, passed 16 GB after 15 min without an end (the cap is 12 GB) - excluded, stated
+        lp = bv64(m0.vidx("TokenKind", "LParen"))
+        base_fc = fc
+        fc = lambda k, base_fc=base_fc: z3.And(base_fc(k), k != lp)
     stt = {}
     m, eng, ts, paths = C09.explore_block(O, N, None, fc, 2, fixed=fixed, keep_outcomes=C09.only_bad,
                                           path_hook=span_hook(stt, m0, O.find("::parse_stmt_block")))
@@ -405,7 +411,8 @@ def _reg_span(N, part, parts, tier):
     @obligation(name, profiles=("dev",), tier=tier,
                 desc="parse_stmt_block over every sequence of %d token kinds (positions and texts symbolic) then Eof%s: no "
                      "path condition and no accepted result mentions a token position or the source length other than as "
-                     "the text of a token" % (N, "" if part is None else " (first token in class %d of %d)" % (part + 1, parts)))
+                     "the text of a token%s" % (N, "" if part is None else " (first token in class %d of %d)" % (part + 1, parts),
+                                               "; sequences that start with `(` are outside the N = 4 jobs" if N >= 4 else ""))
     def _ob(O, N=N, part=part, parts=parts):
         _span_check(O, N, part, parts)
     return _ob
